@@ -217,7 +217,7 @@ func eqStrings(a, b []string) bool {
 
 // check replays a history on a fresh runtime against the model.
 func check(ops []Op) *checked {
-	env := el.MustEnv(el.Opts{})
+	env := el.MustEnv(el.Opts{Stdlib: needsStdlib(ops)})
 	res := &checked{}
 	worlds := []*world{{}}
 	var prev []string
@@ -259,7 +259,11 @@ func check(ops []Op) *checked {
 			if expectErr {
 				exp = "an error and no change"
 			}
-			res.bad = &mismatch{Step: step, Class: op.K + "/" + operand + ":outcome", Expected: exp, Got: out.Full(),
+			cls := op.K + "/" + operand + ":outcome"
+			if operand == "json-map" && op.usesSymbolKey() {
+				cls = op.K + "/json-map:symbol-key:outcome"
+			}
+			res.bad = &mismatch{Step: step, Class: cls, Expected: exp, Got: out.Full(),
 				Note: "statement: " + src}
 			return res
 		}
@@ -388,6 +392,9 @@ func classify(op Op, operand, src string, step int, cand []*world, obs, prev []s
 		Note: fmt.Sprintf("statement %d: %s; values before: %s", step, src, strings.Join(prev, " | "))}
 }
 
+// development aids: VERIF_C11_ONLY=<pass label> runs one pass, VERIF_C11_DUMP=1 prints every canonical form
+var dumpKeys = os.Getenv("VERIF_C11_DUMP") != ""
+
 // canonKey is the canonical state: every surviving world serialised under one
 // variable order, refined by the observed layout of the real slices.
 func canonKey(c *checked) [16]byte {
@@ -398,6 +405,9 @@ func canonKey(c *checked) [16]byte {
 			parts = append(parts, w.serialize(ord, c.lay))
 		}
 		sort.Strings(parts)
+	}
+	if dumpKeys {
+		fmt.Fprintf(os.Stderr, "KEY %s\n", strings.Join(parts, " || "))
 	}
 	h := sha256.Sum256([]byte(strings.Join(parts, "\n")))
 	var k [16]byte
@@ -595,6 +605,12 @@ func enumerate(w *world, al alpha) []Op {
 		}
 		return alphabetNoop(w)
 	}
+	if al.level == 4 {
+		if len(w.vars) >= al.maxVars {
+			return nil
+		}
+		return alphabetSiblings(w)
+	}
 	return alphabet(w, al)
 }
 
@@ -619,12 +635,14 @@ func run(r *core.Run) {
 			{"mid-alphabet", alpha{level: 1, maxVars: 6}, 4},
 			{"core-alphabet", alpha{level: 0, maxVars: 6}, 5},
 			{"noop-family", alpha{level: 3, maxVars: 6}, 4},
+			{"siblings-family", alpha{level: 4, maxVars: 6}, 4},
 		}
 	} else {
 		passes = []pass{
 			{"full-alphabet", alpha{level: 2, maxVars: 6}, 3},
 			{"core-alphabet", alpha{level: 0, maxVars: 6}, 4},
 			{"noop-family", alpha{level: 3, maxVars: 6}, 3},
+			{"siblings-family", alpha{level: 4, maxVars: 6}, 3},
 		}
 	}
 	r.Rule("a state is non-trivial when its heap contains sharing: two distinct live sequence values whose windows onto one backing " +
@@ -641,6 +659,9 @@ func run(r *core.Run) {
 		"storage and no identity with any value that existed before, unless documented as a view (slice, cdr, rest) or documented to hand back an existing value " +
 		"(a name, nth/get of a stored container, to-bytes of bytes, stable-sort's return value); the noop-family pass builds <shape>;<non-mutating op>;<in-place op>+ " +
 		"and applies every in-place operation to the result and, separately, to the source")
+	r.Assume("containers produced by ONE call (zip tuples, containers built in a map callback, constructors of constructors, concat/append/reverse/slice/assoc " +
+		"results over containers, decoded JSON arrays and objects, select/reject results) are independent objects: the siblings-family pass takes each inner " +
+		"container out by nth/aref/first/second/get, applies every in-place operation to it and to the outer container, and re-inspects the outer container and all siblings")
 	r.Assume("strings are outside the alphabet (to-string/format-string of a string): elps strings are immutable, no in-place operation exists, so sharing is unobservable")
 	r.Assume("the canonical state also carries the IDENTITY of the real mutable object behind every container (cell holder, byte box, Go map), so a history whose " +
 		"'fresh' result is really its argument is never merged with an honest history that reaches the same model heap")
@@ -649,6 +670,9 @@ func run(r *core.Run) {
 	var totalS, totalT int64
 	maxD := 0
 	for _, p := range passes {
+		if only := os.Getenv("VERIF_C11_ONLY"); only != "" && only != p.label {
+			continue
+		}
 		if r.Expired() {
 			r.Cap(p.label + ": not started, soft deadline reached")
 			continue
